@@ -933,13 +933,59 @@ def run_histories(res, chk, seed, idx, n, tier):
         defvjp(Pv, lambda ans, x: lambda g: g * 3.0)
         check_grads(Pv)(onp.array([0.4, -0.9]))
 
+    def ev_flatten_empty(rng):
+        # the flattening helpers and an optimizer step on parameter trees that contain EMPTY containers
+        from autograd.misc.flatten import flatten, flatten_func
+        from autograd.misc.optimizers import adam, sgd
+
+        for val in ((), [], {}, (x3, ()), {"w": x3, "extra": []}, [(), {"b": onp.array(0.5)}], ((), ((), [])), {"a": {}, "z": (x3, [])}):
+            flat, unflatten = flatten(val)
+            back = unflatten(flat)
+            assert common.sdesc(back) == common.sdesc(val) or not common.leaves(val), "unflatten(flatten(v)) has another structure than v: %r" % (val,)
+        ff, unfl, flat0 = flatten_func(lambda p, t: anp.sum(p["w"] ** 2) * t, {"w": x3, "extra": ()})
+        assert abs(float(onp.sum(ff(flat0, 2.0))) - 2.0 * float(onp.sum(x3**2))) < 1e-12
+        g = grad(lambda p, i: anp.sum(p["w"] ** 2))
+        for opt in (sgd, adam):
+            out = opt(g, {"w": x3.copy(), "extra": ()}, num_iters=2, step_size=0.01)
+            assert onp.all(onp.abs(out["w"]) < onp.abs(x3)), "an optimizer step on a tree with an empty container did not shrink the parameters"
+
+    def ev_named_same_qualname(rng):
+        # selection by NAME on distinct functions that share module and qualified name (lambdas of one scope,
+        # a function re-defined with reordered parameters): each call looks at the function it was given
+        from autograd import grad_named
+
+        fa = lambda w, s: anp.sum(anp.sin(w) * s)
+        fb = lambda s, w: anp.sum(anp.sin(w) * s) * 2.0
+        assert fa.__qualname__ == fb.__qualname__
+        s0 = onp.array([1.0, 2.0, -1.0])
+        pairs = [(fa, (x3, s0), onp.cos(x3) * s0), (fb, (s0, x3), 2.0 * onp.cos(x3) * s0)]
+        if rng.uniform() < 0.5:
+            pairs = pairs[::-1]
+        for f_, args_, want in pairs:
+            got = grad_named(f_, "w")(*args_)
+            assert onp.allclose(got, want, rtol=1e-13, atol=1e-13), "grad_named(<lambda>, 'w') = %r, expected %r" % (got, want)
+
+        def make(order):
+            if order:
+                def loss(w, s):
+                    return anp.sum(w * w * s)
+            else:
+                def loss(s, w):
+                    return anp.sum(w * w * s) * 3.0
+            return loss
+
+        for order in ((True, False) if rng.uniform() < 0.5 else (False, True)):
+            f_ = make(order)
+            got = grad_named(f_, "w")(*((x3, s0) if order else (s0, x3)))
+            assert onp.allclose(got, (2.0 if order else 6.0) * x3 * s0, rtol=1e-13, atol=1e-13), "grad_named(loss, 'w') after a re-definition with reordered parameters: %r" % (got,)
+
     def ev_ok_work(rng):
         hessian(lambda x: anp.sum(anp.sin(x) * x))(x3)
         make_vjp(lambda x: anp.cumsum(x))(x3)[0](onp.ones(3))
 
     events = {"fail_user": ev_fail_user, "fail_nested": ev_fail_nested, "fail_rule": ev_fail_rule, "fail_norule": ev_fail_norule, "fail_type": ev_fail_type, "fail_nonscalar": ev_fail_nonscalar,
               "fail_warning": ev_fail_warning, "fail_warning_nested": ev_fail_warning_nested, "fail_setitem": ev_fail_setitem, "caught_inside": ev_fail_caught_inside, "reentrant_rule": ev_reentrant_rule,
-              "reentrant_forward": ev_reentrant_forward, "recursion": ev_recursion, "register": ev_register, "deprecated": ev_deprecated, "ok_work": ev_ok_work, "rfft_options": ev_rfft_options, "fail_bad_cotangent": ev_fail_bad_cotangent, "warnings_as_errors": ev_warnings_as_errors, "fail_check_grads_vjp_only": ev_fail_check_grads_vjp_only, "operator_object_reuse": ev_operator_object_reuse}
+              "reentrant_forward": ev_reentrant_forward, "recursion": ev_recursion, "register": ev_register, "deprecated": ev_deprecated, "ok_work": ev_ok_work, "rfft_options": ev_rfft_options, "fail_bad_cotangent": ev_fail_bad_cotangent, "warnings_as_errors": ev_warnings_as_errors, "fail_check_grads_vjp_only": ev_fail_check_grads_vjp_only, "operator_object_reuse": ev_operator_object_reuse, "flatten_empty": ev_flatten_empty, "named_same_qualname": ev_named_same_qualname}
     names = sorted(events)
     for h in range(idx, total, n):
         rng = onp.random.Generator(onp.random.PCG64([seed, h, 79]))
@@ -956,7 +1002,15 @@ def run_histories(res, chk, seed, idx, n, tier):
             try:
                 with warnings.catch_warnings():
                     warnings.simplefilter("ignore")
+                    filters0 = list(warnings.filters)
                     out = events[ev](rng)
+                    # (compared before the context restores the list: a filter installed by the call would
+                    # otherwise be undone by this harness and survive in a user's process)
+                    if list(warnings.filters) != filters0:
+                        added = [f_ for f_ in warnings.filters if f_ not in filters0]
+                        bad = ("ambient_state_changed", "step %d (%s) left the process-wide warnings filter list changed: %d -> %d entries, new: %s" % (step, ev, len(filters0), len(warnings.filters), str(added)[:200]))
+                if bad:
+                    break
                 if ev.startswith("fail_"):
                     bad = ("not_loud", "event %s did not raise" % ev)
                     break
